@@ -285,26 +285,26 @@ def coq_traces(ctx):
     text = ("From Coq Require Import List String Bool.\nImport ListNotations.\n"
             "From PyOrb.model Require Import M_Purity.\nFrom PyOrb.proofs Require Import P_Purity.\n"
             "Set Printing Depth 1000000.\nSet Printing Width 200.\n"
-            "Definition st (a b : option nat) : state nat := {| st_time := a; st_period := b; st_touched := false |}.\n"
-            "Eval vm_compute in (map (fun s => trace nat nat (demo_prog gen_facts 1) s ++ [ETouch])\n"
-            "   [st None None; st (Some 100) None; st (Some 100) (Some 7); st None (Some 7)]).\n"
+            "Definition st (a b : option nat) : state nat := {| st_time := a; st_period := b; st_touched := false |}.\n"            + "".join("Eval vm_compute in (trace nat nat (demo_prog gen_facts 1) (st %s)).\n" % x for x in
+                      ("None None", "(Some 100) None", "(Some 100) (Some 7)", "None (Some 7)")) +
             "Eval vm_compute in (map (fun q => (touches gen_facts q, stores_elsewhere gen_facts q)) Gen_Purity.queries).\n")
     ok, out = common.coq_eval("c18", text, timeout=300)
     ctx.checker_cmds.append("coqc cases_c18.v (model traces from the reachable cache states, by vm_compute)")
     if not ok:
         return None, out
-    first = out.split(": list (list")[0]
-    toks = re.findall(r"ERead\s+(AnTime|AnPeriod)\s+(true|false)|EWrite\s+(AnTime|AnPeriod)|(ETouch)", first)
-    traces, cur = [], []
-    for rc, rb, wc, tch in toks:
-        if tch:
-            traces.append(cur)
-            cur = []
-        elif rc:
-            cur.append(("R", "an_time" if rc == "AnTime" else "an_period", rb == "true"))
-        else:
-            cur.append(("W", "an_time" if wc == "AnTime" else "an_period"))
-    flags = re.findall(r"\((true|false),\s*(true|false)\)", out.split(": list (list")[-1])
+    parts = out.split(": list event")
+    traces = []
+    for part in parts[:-1]:
+        cur = []
+        for rc, rb, wc, tch in re.findall(r"ERead\s+(AnTime|AnPeriod)\s+(true|false)|EWrite\s+(AnTime|AnPeriod)|(ETouch)", part):
+            if tch:
+                cur.append(("T",))
+            elif rc:
+                cur.append(("R", "an_time" if rc == "AnTime" else "an_period", rb == "true"))
+            else:
+                cur.append(("W", "an_time" if wc == "AnTime" else "an_period"))
+        traces.append(cur)
+    flags = re.findall(r"\((true|false),\s*(true|false)\)", parts[-1])
     if len(traces) != 4 or len(flags) != 8:
         return None, out
     return (traces, [(a == "true", b == "true") for a, b in flags]), out
